@@ -153,58 +153,78 @@ def run(ctx):
             ctx.ob("R1", "refusal-returns-same-arg:%s" % short, ao.k == "arg" and ao.a["name"] == "arg", "the refusal carries %s; must hand back the refused argument itself (it is re-offered to the next batch)" % ao.fmt(), fn=f, where=prim.site(f, b, s), how="provenance slice")
             ooc = s.rv.ops[names.index("out_of_chars")].const_value()
             ctx.ob("R1", "refusal-kind:%s" % short, ooc is bool(spec.get("size", False)), "out_of_chars=%s in %s; oracle %s (only the size limiter reports a character overflow, -x depends on it)" % (ooc, short, bool(spec.get("size", False))), fn=f, where=prim.site(f, b, s), how="constant field")
-            gs = prim.dominating_guards(f, b)
-            atoms = [at for at in prim.norm_guards(gs) if at["rel"] in ("lt", "le", "gt", "ge")]
-            # R2: the comparison, in normal form: the refusal holds exactly when NOT (lhs cmp bound)
-            ok2 = False
-            desc = prim.guards_fmt(gs)
+        # R2: the acceptance test, in normal form. The remaining limiters are consulted (and the counter updated) exactly
+        # when `lhs cmp bound` holds — plus, for the size limiter, the per-argument bound of the system limiter; every
+        # other path ends in the single refusal.
+        def is_field(o, name):
+            return o.k == "field" and o.a == name
 
-            def is_field(o, name):
-                return o.k == "field" and o.a == name
-            want_rel = {"Lt": "ge", "Le": "gt"}[spec["cmp"]]          # negation of the acceptance test
-            if len(atoms) == 1:
-                at = atoms[0]
-                lhs, rhs, rel = at["a"].strip(), at["b"].strip(), at["rel"]
-                if is_field(lhs, spec["bound"]) or any(is_field(x, spec["bound"]) for x in [lhs]):
-                    lhs, rhs, rel = rhs, lhs, prim._SWAP[rel]
-                if spec.get("size"):
-                    # cur + cost <= max : lhs is (AddWithOverflow(cur, cost)).0 or Add
-                    core = lhs
-                    if core.k == "field" and core.kids and core.kids[0].strip().k == "bin":
-                        core = core.kids[0].strip()
-                    if core.k == "bin" and core.a in ("Add", "AddWithOverflow") and rel == want_rel and is_field(rhs, spec["bound"]):
-                        parts = [k.strip() for k in core.kids]
-                        cur = [p for p in parts if is_field(p, spec["counter"])]
-                        cost = [p for p in parts if not is_field(p, spec["counter"])]
-                        if len(cur) == 1 and len(cost) == 1 and cost[0].k == "call" and cost[0].a["callee"].endswith("count_osstr_chars_for_exec"):
-                            ok2 = True
-                            cost_call_bb = cost[0].a["bb"]
-                            # the increment adds the same cost value
-                            for wb, ws in writes:
-                                wo = prim._origin_of_def(f, (wb, "assign", ws), 8, set()).strip()
-                                core2 = wo
-                                if core2.k == "field" and core2.kids and core2.kids[0].strip().k == "bin":
-                                    core2 = core2.kids[0].strip()
-                                same = core2.k == "bin" and core2.a in ("Add", "AddWithOverflow") and any(k.strip().k == "call" and k.strip().a["bb"] == cost_call_bb for k in core2.kids) and any(is_field(k.strip(), spec["counter"]) for k in core2.kids)
-                                ctx.ob("R2", "size-increment-is-the-compared-cost", same, "current_size must grow by exactly the cost that was compared against the limit (one call of the cost function); increment: %s" % wo.fmt(), fn=f, where=prim.site(f, wb, ws), how="value numbering (same call site)")
-                            # cost is computed from the offered argument
-                            ca = cost[0].kids[0]
-                            ctx.ob("R2", "size-cost-of-this-arg", any(x.k == "arg" and x.a["name"] == "arg" for x in ca.walk()), "the cost is computed from %s" % ca.fmt(), fn=f, how="provenance slice")
-                else:
-                    if is_field(lhs, spec["counter"]) and is_field(rhs, spec["bound"]) and rel == want_rel:
+        def cost_core(o):
+            """(counter part, cost part) of `counter + cost` spelled with +, checked or saturating addition"""
+            core = o.strip()
+            if core.k == "field" and core.kids and core.kids[0].strip().k == "bin":
+                core = core.kids[0].strip()
+            if (core.k == "bin" and core.a in ("Add", "AddWithOverflow")) or (core.k == "call" and core.a["name"] in ("saturating_add", "checked_add", "wrapping_add") and len(core.kids) == 2):
+                parts = [k.strip() for k in core.kids]
+                cur = [p for p in parts if is_field(p, spec["counter"])]
+                cost = [p for p in parts if not is_field(p, spec["counter"])]
+                if len(cur) == 1 and len(cost) == 1:
+                    return cur[0], cost[0]
+            return None, None
+
+        def charge_parts(o):
+            """the cost-function call in a charge `cost(arg)` or `cost(arg) + self.<overhead field>`"""
+            o = o.strip()
+            calls = [c for c in o.call_nodes() if c.a["callee"].endswith("count_osstr_chars_for_exec")]
+            extra = [x.a for x in o.walk() if x.k == "field" and x.a not in ("arg", "0", "1")]
+            other_calls = [c.a["name"] for c in o.call_nodes() if not c.a["callee"].endswith("count_osstr_chars_for_exec") and c.a["name"] not in ("saturating_add", "checked_add", "deref", "as_ref")]
+            return calls, extra, other_calls
+        gs_acc = prim.dominating_guards(f, tb)
+        atoms = [at for at in prim.norm_guards(gs_acc) if at["rel"] in ("lt", "le", "gt", "ge")]
+        want_rel = {"Lt": "lt", "Le": "le"}[spec["cmp"]]
+        ok2 = False
+        extra_atoms = []
+        desc = prim.guards_fmt(gs_acc)
+        for at in atoms:
+            lhs, rhs, rel = at["a"].strip(), at["b"].strip(), at["rel"]
+            if is_field(lhs, spec["bound"]):
+                lhs, rhs, rel = rhs, lhs, prim._SWAP[rel]
+            if spec.get("size"):
+                cur, cost = cost_core(lhs)
+                if cur is not None and rel == want_rel and is_field(rhs, spec["bound"]):
+                    calls, extra, other = charge_parts(cost)
+                    if len(calls) == 1 and not other and len(extra) <= 1:
                         ok2 = True
-                guard_bb = at["gd"]["bb"]
-            ctx.ob("R2", "limit-comparison:%s" % short, ok2,
-                   "the refusal of %s must be taken exactly when `%s %s %s` is false (initial value %s): this pair keeps the invariant `within limit` and refuses only when one more would exceed it; found guards: %s" % (
-                       short, ("current_size + cost" if spec.get("size") else spec["counter"]), {"Lt": "<", "Le": "<="}[spec["cmp"]], spec["bound"], spec["init"], desc),
-                   fn=f, where=prim.site(f, b, s), how="dominating guard (normal form) + oracle row")
-        # try_next only on the accepting side of the same comparison
-        if guard_bb is not None:
-            gs = prim.dominating_guards(f, tb)
-            here = [gd for gd in gs if gd["bb"] == guard_bb]
-            there = [gd for b, s in errs for gd in prim.dominating_guards(f, b) if gd["bb"] == guard_bb]
-            ok = bool(here) and bool(there) and here[0]["bool"] is not None and here[0]["bool"] is (not there[0]["bool"])
-            ctx.ob("R2", "accept-side:%s" % short, ok, "the remaining limiters are consulted only when this limiter has room (the other edge of the comparison that guards the refusal)", fn=f, where=prim.site(f, tb), how="dominating guard")
+                        cost_call_bb = calls[0].a["bb"]
+                        # the increment adds the same cost value
+                        for wb, ws in writes:
+                            wo = prim._origin_of_def(f, (wb, "assign", ws), 8, set()).strip()
+                            c2, k2 = cost_core(wo)
+                            same = c2 is not None and any(c.a["bb"] == cost_call_bb for c in charge_parts(k2)[0]) and charge_parts(k2)[1] == extra
+                            ctx.ob("R2", "size-increment-is-the-compared-cost", same, "current_size must grow by exactly the cost that was compared against the limit (one call of the cost function, the same overhead); increment: %s" % wo.fmt(), fn=f, where=prim.site(f, wb, ws), how="value numbering (same call site)")
+                        ca = calls[0].kids[0]
+                        ctx.ob("R2", "size-cost-of-this-arg", any(x.k == "arg" and x.a["name"] == "arg" for x in ca.walk()), "the cost is computed from %s" % ca.fmt(), fn=f, how="provenance slice")
+                        continue
+                # the per-argument bound (contract K1): cost(this arg) <= self.<max single argument>
+                calls, extra, other = charge_parts(lhs)
+                if rel == "le" and len(calls) == 1 and not extra and not other and rhs.k == "field" and rhs.a not in (spec["counter"], spec["bound"]) and any(x.k == "arg" and x.a["name"] == "arg" for x in calls[0].kids[0].walk()):
+                    continue
+                extra_atoms.append(at)
+            else:
+                if is_field(lhs, spec["counter"]) and is_field(rhs, spec["bound"]) and rel == want_rel:
+                    ok2 = True
+                else:
+                    extra_atoms.append(at)
+        ctx.ob("R2", "limit-comparison:%s" % short, ok2 and not extra_atoms,
+               "%s must accept exactly when `%s %s %s` holds (initial value %s)%s: this pair keeps the invariant `within limit` and refuses only when one more would exceed it; acceptance guards: %s; unexplained conditions: %s" % (
+                   short, ("current_size + cost" if spec.get("size") else spec["counter"]), {"Lt": "<", "Le": "<="}[spec["cmp"]], spec["bound"], spec["init"],
+                   " and the single argument is within the per-argument bound" if spec.get("size") else "", desc, [prim.guards_fmt([a["gd"]])[:80] for a in extra_atoms]),
+               fn=f, where=prim.site(f, tb), how="dominating guards (normal form) + oracle row")
+        # every other path ends in the refusal: a return is reached only through try_next or through the refusal
+        errb = [b for b, s in errs]
+        rets = f.return_blocks()
+        ok = bool(errb) and all(prim.must_pass(f, 0, [r], [tb] + errb) for r in rets)
+        ctx.ob("R2", "accept-side:%s" % short, ok, "every path of try_arg either consults the remaining limiters under the acceptance test or returns the refusal", fn=f, where=prim.site(f, tb), how="must-pass-through")
         # initial value
         nf = prog.fns.get(ty + "::new")
         if nf is None:
